@@ -221,7 +221,7 @@ REGISTRY["C19"] = {
 
 REGISTRY["C20"] = {
     "engine": "engine_rec",
-    "theorems": [(A + "Rec", "Api.Rec.race_counterexample"), (A + "Rec", "Api.Rec.seq_ok"), (A + "Rec", "Api.Rec.C20_mutex"),
+    "theorems": [(A + "RecLockThm", "Api.Rec.lock_is_global"), (A + "Rec", "Api.Rec.race_counterexample"), (A + "Rec", "Api.Rec.seq_ok"), (A + "Rec", "Api.Rec.C20_mutex"),
                  (A + "Rec", "Api.Rec.lockInv_run"), (A + "Rec", "Api.Rec.C20_locked_racy_schedule_ok")],
     "partial": "the interleaving model covers the recursion analysis (the shared recursion cache): a race counterexample for the unsynchronised protocol and "
                "mutual exclusion of the locked protocol for every graph and schedule; DFS correctness of a sequential analysis, the lru_cache fills, RecMethod / "
